@@ -17,16 +17,15 @@ def c1(ctx):
 
 def c2(ctx):
     convert.purity(ctx)
-    fwd.fwd_options(ctx, ["simfile_template", "chart_template", "invalid_property_behaviors"], floor=6,
-                    scope=[f.fq for f in ctx.p.nontest_functions() if f.module.name == "simfile.convert"])
+    fwd.fwd_options(ctx, ["simfile_template", "chart_template"], floor=2, scope=["simfile.convert:sm_to_ssc", "simfile.convert:_convert"])
 
 
 def c3(ctx):
-    convert.ssc_target_tables(ctx)
+    convert.ssc_target_tables(ctx, 'sm_to_ssc')
 
 
 def c4(ctx):
-    convert.warps_first(ctx)
+    convert.warps_first(ctx, 'sm_to_ssc')
 
 
 CLAUSES = [
